@@ -173,7 +173,16 @@ func genC03(r *simrt.Rand, tier string, idx uint64) *Plan {
 	if cr.Chance(1, 2) {
 		streamCodec(cr, p)
 		p.Streams = []StreamPlan{{Conn: 0, Push: cr.Intn(3), Echo: true}}
-		p.Clients = append(p.Clients, ClientPlan{Conn: 0, Ops: []Op{{Kind: "sopen"}, {Kind: "swrite", N: 2}, {Kind: "sread", N: 2 + p.Streams[0].Push}, {Kind: "sread", N: 1}}})
+		last := Op{Kind: "sread", N: 1}
+		if cr.Chance(1, 2) {
+			last = Op{Kind: "sclose"} // a close request in flight is a call waiting for its acknowledgement
+		}
+		p.Clients = append(p.Clients, ClientPlan{Conn: 0, Ops: []Op{{Kind: "sopen"}, {Kind: "swrite", N: 2}, {Kind: "sread", N: 2 + p.Streams[0].Push}, last}})
+		if cr.Chance(1, 2) {
+			// a second stream opened and closed at once
+			p.Streams = append(p.Streams, StreamPlan{Conn: 0, Echo: true})
+			p.Clients = append(p.Clients, ClientPlan{Conn: 0, Ops: []Op{{Kind: "sopen", Stream: 1}, {Kind: "sclose", Stream: 1}}})
+		}
 	}
 	// estimate of the conversation length per direction
 	est := 0
@@ -221,6 +230,10 @@ func checkC03(w *World, run *simrt.Run) {
 	for _, s := range w.Streams {
 		if s.ClientBlocked {
 			w.Violate("C03.stream-reader-hangs", "stream-reader-hangs", fmt.Sprintf("stream %d: client ReadMessage still blocked after the connection ended", s.Idx))
+		}
+		if s.CallBlocked != "" {
+			// opening and closing a stream are calls too (a request that waits for its acknowledgement)
+			w.Violate("C03.caller-hangs", "caller-hangs:stream-"+s.CallBlocked, fmt.Sprintf("stream %d: the %s request never returned after the connection ended and was torn down", s.Idx, s.CallBlocked))
 		}
 	}
 	// (b) once the loss has been reported (a call returned ErrShutdown), later calls fail at once with ErrShutdown
